@@ -52,6 +52,7 @@ CASE_LIMIT_S = 20.0
 
 MIN, MAX = 0, 1          # documented values of MODE_SEGMENTATION_MINIMIZE / MAXIMIZE
 ENUM_MAX_N = 15
+DAG_MAX_N = 600
 MONITOR = "optimalPartition.optimal_for_matrix"
 
 REC = []                 # calls recorded during the current case
@@ -63,6 +64,28 @@ _state = {"installed": False, "seg": None, "sim": None}
 _cache = {"key": None, "val": None}
 
 
+def dag_optima(C, N):
+    """Exact optimum over all strictly increasing lists 0 .. N-1 for any N: best[j] = opt_i<j best[i] + C[i][j]
+    (a shortest / longest path in the complete DAG; not the interval recursion tracklib uses)."""
+    out = []
+    for sign in (1, -1):
+        best = [0.0] + [None] * (N - 1)
+        arg = [None] * N
+        for j in range(1, N):
+            b, a = None, None
+            for i in range(j):
+                v = best[i] + C[i][j]
+                if b is None or sign * v < sign * b:
+                    b, a = v, i
+            best[j], arg[j] = b, a
+        lst, j = [N - 1], N - 1
+        while j:
+            j = arg[j]
+            lst.append(j)
+        out += [best[N - 1], lst[::-1]]
+    return tuple(out)
+
+
 def enumerate_optima(C, N, with_ties=False):
     """C: list of lists (at least N x N).  Returns (min, argmin list, max,
     argmax list) over all strictly increasing index lists from 0 to N-1
@@ -72,6 +95,10 @@ def enumerate_optima(C, N, with_ties=False):
     key = (N, repr([row[:N] for row in C[:N]]))
     if _cache["key"] == key:
         v = _cache["val"]
+        return v if with_ties else v[:4]
+    if N > ENUM_MAX_N:
+        v = dag_optima(C, N) + (None, None)
+        _cache["key"], _cache["val"] = key, v
         return v if with_ties else v[:4]
     bmin = bmax = None
     lmin = lmax = None
@@ -121,6 +148,12 @@ def check_partition(C, N, mode, result):
     for a, b in zip(lst, lst[1:]):
         got += C[a][b]
     bmin, lmin, bmax, lmax = enumerate_optima(C, N)
+    if 4 <= N <= 9 and (int(abs(got) * 1000) + N) % 11 == 0:
+        d = dag_optima(C, N)
+        tol = 1e-9 * N * max([abs(C[a][b]) for a in range(N) for b in range(a + 1, N)] + [1.0])
+        if abs(d[0] - bmin) > tol or abs(d[2] - bmax) > tol:
+            raise M.HarnessError("oracle self-check failed: DAG recursion %r/%r vs enumeration %r/%r" % (d[0], d[2], bmin, bmax))
+        M.CTX.count("oracle_selfcheck_dag_vs_enumeration")
     want, wl = (bmin, lmin) if mode == MIN else (bmax, lmax)
     # relative to the magnitude of the costs themselves (a matrix may be given in units of 1e-10 or 1e13)
     scale = N * max([abs(C[a][b]) for a in range(N) for b in range(a + 1, N)] + [0.0])
@@ -153,10 +186,12 @@ def _post(tok, args, kwargs, result):
         rec["skipped"] = "N<2 (out of domain)"
         M.CTX.count("partition_calls_N_lt_2")
         return None
-    if N > ENUM_MAX_N:
-        rec["skipped"] = "too large to enumerate"
+    if N > DAG_MAX_N:
+        rec["skipped"] = "too large for the oracle"
         M.CTX.count("partition_calls_too_large")
         return None
+    if N > ENUM_MAX_N:
+        M.CTX.count("partition_calls_judged_by_the_dag_recursion")
     rec["checked"] = True
     prob = check_partition(tok.tolist(), N, mode, result)
     rec["problem"] = prob
@@ -329,6 +364,8 @@ def chunks(tier, seed):
         out.append({"kind": "rnd", "family": FAMS[k % len(FAMS)], "n": 2 * sz["rnd"], "key": "rnd%d" % k})
     for k, fam in enumerate(["tiny_unit", "large_unit"]):
         out.append({"kind": "rnd", "family": fam, "n": sz["rnd"], "key": "unit%d" % k})
+    for k in range(6 if tier == "quick" else 16):
+        out.append({"kind": "big", "n": 1, "key": "big%d" % k, "idx": k})
     for k in range(3):
         out.append({"kind": "seg", "n": 2 * sz["seg"], "key": "seg%d" % k})
     for k in range(2):
@@ -351,7 +388,9 @@ def floors(tier):
                      "simplify_free_max": 400, "simplify_mode4": 350, "simplify_mode5": 350,
                      "simplify_mode6": 350, "findStopsGlobal": 1200, "stops_found": 600,
                      "two_stops": 100, "no_stop": 60, "direction_default": 400,
-                     "direction_minimize": 800, "direction_maximize": 800, "with_global_parameter": 1200},
+                     "direction_minimize": 800, "direction_maximize": 800, "with_global_parameter": 1200,
+                     "matrix_in_another_representation": 2000, "matrix_given_as_bool": 100,
+                     "more_than_128_candidates": 3},
          "counters": {"min_differs_from_max": 40000},
          "distinct_nontrivial": 40000}
     for kind in ("monitors", "classes", "counters"):
@@ -390,6 +429,18 @@ def cases(chunk):
                 N = 1
             diag = [float(rng.randrange(0, 5)) for _ in range(N)] if rng.random() < 0.3 else None
             yield {"kind": "mat", "N": N, "upper": random_upper(rng, N, fam), "diag": diag, "src": fam}
+    elif kind == "big":
+        # larger scale: more than 128 break candidates (judged by the DAG recursion)
+        k = chunk["idx"]
+        N = [129, 140, 160, 200, 131, 240][k % 6]
+        fam = ["uniform", "smallint", "signed", "sparse", "uniform", "uniform"][k % 6]
+        if k % 3 == 2:
+            pts = [[round(0.7 * i + rng.uniform(0, 0.3), 3), round(rng.uniform(0, 100), 3)] for i in range(N)]
+            c = {"kind": "seg", "pts": pts, "glob": None, "mode": ["min", "max"][k % 2], "verbose": False}
+            c.update({"cost": "table", "table": cost_table(rng, N, fam)})
+            yield c
+        else:
+            yield {"kind": "mat", "N": N, "upper": random_upper(rng, N, fam), "diag": None, "src": fam}
     elif kind in ("seg", "osimp"):
         for i in range(chunk["n"]):
             n = rng.randint(3, 12)
@@ -486,10 +537,33 @@ def run_mat(case, ctx):
         cls.append("entries_1e300")
     if any(v < 0 for v in case["upper"]):
         cls.append("negative_entries")
-    nt, more = _matrix_classes(Cl, N, ctx)
+    if N > 100:
+        nt, more = True, ["more_than_128_candidates"]
+    else:
+        nt, more = _matrix_classes(Cl, N, ctx)
     cls += more
-    if N >= 3 and _has_ties(Cl, N):
+    if 3 <= N <= ENUM_MAX_N and _has_ties(Cl, N):
         cls.append("ties_between_optima")
+    # the same matrix in another representation a caller may hold it in (integer / boolean / single-precision arrays
+    # for matrices whose entries are such numbers; the function reads .shape, so nested lists are not accepted)
+    import numpy as np
+    flat = [float(v) for v in case["upper"]] + [float(v) for v in (case["diag"] or [])]
+    h = (N * 7 + int(sum(abs(v) for v in flat[:50]) * 8)) % 9
+    rep = None
+    if all(v == int(v) and abs(v) < 100 for v in flat):
+        if h == 1:
+            rep, C = "int64", C.astype(np.int64)
+        elif h == 2:
+            rep, C = "int8", C.astype(np.int8)
+        elif h in (3, 4) and all(v in (0.0, 1.0) for v in flat):
+            rep, C = "bool", C.astype(bool)
+        elif h == 5:
+            rep, C = "uint8", C.astype(np.uint8) if all(v >= 0 for v in flat) else C
+    if rep is None and h == 6 and all(float(np.float32(v)) == v for v in flat):
+        rep, C = "float32", C.astype(np.float32)
+    if rep:
+        cls.append("matrix_given_as_" + rep)
+        cls.append("matrix_in_another_representation")
     if (N + int(sum(abs(v) for v in case["upper"]) * 4)) % 3 == 0:
         # error path first: degenerate requests that cannot be honoured (a 1x1 / 0x0 matrix; stop detection on a
         # one-point track, which maximises) in either direction; what they raise is not judged
